@@ -624,7 +624,9 @@ def run_c07(chk):
     # kinds differ (an element and its own namespace or attribute nodes are distinct nodes)
     KSETS = [("//*", "e"), ("//@*", "a"), ("//namespace::*", "n"), ("//text()", "t"), ("//comment()", "c"), ("/*", "e"),
              ("//b/namespace::*", "n"), ("//a/@*", "a"), ("/*/namespace::xml", "n"), ("//*[last()]", "e"), ("//a/namespace::*", "n")]
-    KDOCS = CONSTRUCT_DOCS + ["<a xmlns:p='urn:p' k='v'><b/><p:c x='1'><d/>t</p:c><!--c--><b p:k='2' xmlns:q='urn:q'/></a>"]
+    KDOCS = CONSTRUCT_DOCS + ["<a xmlns:p='urn:p' k='v'><b/><p:c x='1'><d/>t</p:c><!--c--><b p:k='2' xmlns:q='urn:q'/></a>",
+                              # nodes that read alike: equal names, equal values, equal text - each still its own node
+                              "<a><b k='v'>t</b><b k='v'>t</b><!--c--><!--c--><b k='v'>t</b><a k='v'/><a k='v'/></a>"]
     kq, kmeta = [], []
     for kd in KDOCS:
         es, m = [], []
